@@ -2106,7 +2106,6 @@ impl Blockchain {
             previous_block_hash.to_hex(),
             ts
         );
-        let ring_buffer_size = self.blockring.get_ring_buffer_size();
         let mut block = Block::new();
         block.id = id;
         block.previous_block_hash = previous_block_hash;
@@ -2122,8 +2121,9 @@ impl Blockchain {
         }
         if !self.blockring.contains_block_hash_at_block_id(id, hash) {
             self.blockring.add_block(&block);
-            self.blockring.lc_pos = Some((id % ring_buffer_size) as usize);
-            self.blockring.ring[(id % ring_buffer_size) as usize].lc_pos = Some(0);
+            // the block just filed becomes the longest-chain entry of its height. (it is looked up by
+            // its hash: the height may already hold a block of the fork the peer was on before)
+            self.blockring.on_chain_reorganization(id, hash, true);
         } else {
             debug!("didn't add ghost block : {:?}-{:?}", id, hash.to_hex());
         }
